@@ -119,7 +119,7 @@ func sameToks(a, b []subj.Tok) bool {
 		return false
 	}
 	for i := range a {
-		if a[i].Type != b[i].Type || !bytes.Equal(a[i].Lit, b[i].Lit) || a[i].Off != b[i].Off || a[i].Line != b[i].Line || a[i].Col != b[i].Col {
+		if a[i].Type != b[i].Type || !bytes.Equal(a[i].Lit, b[i].Lit) || a[i].Off != b[i].Off || a[i].Line != b[i].Line || a[i].Col != b[i].Col || a[i].Ctx != b[i].Ctx {
 			return false
 		}
 	}
